@@ -7,8 +7,8 @@ PREFIXES = [[], ["validate"], ["unroll"], ["depth"], ["unroll", "has_barriers"],
 
 
 def make_cases(rnd, tier, progs):
-    n = 240 if tier == "quick" else 3000
-    ps = progs(50 if tier == "quick" else 300)
+    n = 500 if tier == "quick" else 8000
+    ps = progs(100 if tier == "quick" else 600)
     out = []
     for k in range(n):
         src = ps[k % len(ps)]
@@ -33,6 +33,10 @@ def make_cases(rnd, tier, progs):
                 body.append((i, rnd.choice(modcorr.QUERIES)))
         hist, nobs = modcheck.hist_with_obs(rnd, body, nmod)
         out.append(dict(src=src, hist=hist, nobs=nobs, family="two-modules"))
+    # every transformation with in_place=False on every structured program, then the result transformed again in place
+    out += modcheck.enumerated(rnd, modcorr.TRANSFORMS, "not-in-place-on-every-structured-program", modes=(False,),
+                               before=((), ("unroll",), ("has_measurements", "depth")),
+                               after=((), ("remove_idle_qubits",), ("reverse_qubit_order",), ("unroll",)))
     return out
 
 
